@@ -2,6 +2,7 @@ import DryocVerif.Model.PwhashStr
 import DryocVerif.Proofs.Base64Lemmas
 import DryocVerif.Proofs.PwhashStr
 import DryocVerif.Proofs.PwhashExtra
+import DryocVerif.Proofs.GenPwhash
 /-
 C10 — the password-hash STRING layer (`Model.PwhashStr`, mirroring
 `pwhash_to_string`, `Pwhash::parse_encoded_pwhash`, `crypto_pwhash_str_verify`,
@@ -666,5 +667,11 @@ example : parse [] = .err := by decide
 -- hypotheses `salt ≠ []`, `hash ≠ []` are necessary: the parser rejects its encoder's output
 example : parse (encode .argon2i 1 1 [] [1]) = .err := by decide
 example : parse (encode .argon2i 1 1 [1] []) = .err := by decide
+
+/-- tie to the source: the cost conversion behind the string functions (`convert_costs`: divide the memory limit by 1024, then
+truncate to 32 bits) as translated from the source on every run = the model's -/
+theorem translated_convert_costs (opslimit memlimit : Nat) :
+    Gen.Pwhash.convert_costs opslimit memlimit = Model.Argon2.convertCosts opslimit memlimit :=
+  Proofs.GenPwhash.convert_costs_eq_model opslimit memlimit
 
 end DryocVerif.Properties.C10
